@@ -33,14 +33,21 @@ THEOREMS = [P + t for t in (
     "dict_roundtrip", "detOk_real", "delegations_roundtrip_real", "pools_roundtrip_text_real", "capReal_real", "labReal_real",
     # what the API can construct: invariants over all histories of calls
     "built_inv", "reachable_inv", "delegations_roundtrip_api", "delegations_roundtrip_api_real", "family_of_buildPools",
-    "generate_rejects_mixed_pool_details")]
+    "generate_rejects_mixed_pool_details",
+    # single-resource delegations among the entries; annotate_delegations_and_pools / get_delegations
+    "incorporate_with_singles", "generate_nodes", "annotate_readback", "annotate_rejects_shared_node", "annotate_readback_real",
+    "singlesOf_spec", "single_delegation_readback", "single_delegation_both")]
 TRUSTED_BASE = [
     "gen/delegconsts.py: key/sentinel constants by import; the strings to_json/from_json (and the module functions they call) can use "
     "as keys, resolved by value through any alias, are exactly these constants; behavioural probes of the dispatch (to_json writes the "
     "model's keys for every DelegationFormat member, from_json looks at FIELD_POOL_ID before FIELD_POOL, sentinels)",
     "gen/fields.py (C03's translator): field lists, defaults, _set_fields guard and to_dict drop rule of Capacities / Labels",
     "Model/Deleg.lean mirrors by hand Delegation/Delegations/Pool/Pools (constructor, set_details, add_delegations, to_json, from_json, "
-    "add_pool, validate_pool, build_index_by_delegation_id, generate_delegations_by_node_id, incorporate_delegation); checked differentially",
+    "add_pool, get_pool_by_id, validate_pool, build_index_by_delegation_id, generate_delegations_by_node_id, incorporate_delegation) and "
+    "ABCARMPropertyGraph.annotate_delegations_and_pools / get_delegations (as the list of property writes / from_json of a property text) and "
+    "SubstrateTopology.single_delegation / __copy_to_delegations over the list of model elements (node id, stitch flag, own capacities / "
+    "labels - read from the real topology by the harness); the correspondence drives annotate on a recording stand-in for the graph and "
+    "single_delegation on real substrate topologies (comparing every node's two delegation properties as stored in the graph); checked differentially",
     "json.dumps/json.loads are the identity on the JSON value handed over (objects = insertion-ordered dicts); JSON text is not modelled",
     "details: abstract in the generic theorems (kindOf/toDict/fromDict, the details' own round trip as hypothesis DetOk); the _real theorems "
     "and the driver use the C03 model of Capacities(**kw)/Labels(**kw)/to_dict (Model/Codec.lean on the regenerated class specifications) "
@@ -56,9 +63,11 @@ ASSUMPTIONS = [
     "a Delegation object is not mutated after it was handed to add_delegations (the container aliases it; the model stores values)",
 ]
 RULE = ("delegation sets of 1..5 entries over 4 ids x 3 formats x capacity/label details (edge ints, validated and free label strings, lists), "
-        "built through the API and decoded from mutated JSON; pool families of 1..4 pools x 5 nodes x 3 delegation ids through both "
-        "construction paths; per-node delegation lists for incorporate. non-trivial = >= 2 entries or >= 1 pool with >= 2 reference nodes; "
-        "distinct by canonical request")
+        "every order of the formats, built through the API and decoded from mutated JSON; add_delegations calls of 0..4 arguments with a "
+        "duplicate / other-type argument at every position; pool families of 1..4 pools x 5 nodes x 3 delegation ids through both "
+        "construction paths, read back in dictionary order and in given node orders (all orders for <= 3 nodes); per-node delegation lists for "
+        "incorporate; families plus per-node single-resource delegations through annotate_delegations_and_pools. non-trivial = >= 2 entries or "
+        ">= 1 pool with >= 2 reference nodes; distinct by canonical request")
 
 CORPUS = os.path.join(core.CORPUS_DIR, "C12")
 TYPES = ["CAPACITY", "LABEL"]
@@ -270,6 +279,8 @@ def impl_eval(req):
             for n in node_order(x["order"], back):
                 q.incorporate_delegation(node_id=n, deleg=back[n])
             return ["ok", pools_canon(q, cl)]
+        if op == "topo":
+            return ["ok", topo_eval(x)]
         if op == "ann":
             ps = build_family(cty, x["fam"], dm, cl)
             dels = {}
@@ -743,6 +754,8 @@ def nontrivial(req):
         return any(len((eff_for(p) or set()) - {p["on"]}) >= 2 for p in x["fam"])
     if op == "ann":
         return len(x["fam"]) >= 1 and len(x["dels"]) >= 1
+    if op == "topo":
+        return sum(len(v) for v in x["spec"]["families"].values()) >= 1
     if op == "calls":
         return sum(len(c) for c in x) >= 2
     if op == "pseq":
@@ -821,6 +834,10 @@ def gen_requests(ctx, n_sets, n_fams):
             reqs.append(["dec", other(cty), to_wire(obj)])
         else:
             reqs.append(["dec", cty, to_wire(mutate_json(rng, obj, cty, K))])
+    rng = ctx.sub_rng("corr-topo")
+    reqs.append(["topo", "CAPACITY", topo_request(gen_topo_spec(None, fixed=True))])
+    for i in range(max(8, n_fams // 12)):
+        reqs.append(["topo", "CAPACITY", topo_request(gen_topo_adv(rng))])
     rng = ctx.sub_rng("corr-pools")
     for i in range(n_fams):
         cty = rng.choice(TYPES)
@@ -862,6 +879,8 @@ def correspondence(ctx, res):
         res.evaluations += 1
         res.count("op:" + r[0])
         res.count("result:" + (i[0] if i[0] == "ok" else "err:" + i[1]))
+        if r[0] in ("topo", "ann", "prto"):
+            res.count("%s:%s" % (r[0], i[0] if i[0] == "ok" else "err:" + i[1]))
         if nontrivial(r):
             res.nontrivial.add(canon(r))
         request_verdict(r, i, res)
@@ -1368,6 +1387,25 @@ def check_pools(cty, fam, res, order_rng=None):
             res.violation("C12:pools:roundtrip:details", "pool details read back differ", case)
 
 
+def gen_topo_adv(rng):
+    """gen_topo_spec plus what single_delegation must refuse or treat differently: a pool on a node that has capacities / labels of
+    its own, a switch that is not a stitch node with labelled ports, a clash inside the pools"""
+    spec = gen_topo_spec(rng)
+    r = rng.random()
+    if r < 0.2:
+        fam = spec["families"][rng.choice(TYPES)]
+        if fam:
+            fam[0]["for"] = fam[0]["for"] + [rng.choice(["N1", "N1-nic1", "I1"])]
+    elif r < 0.4:
+        spec["stitch"] = False
+        spec["port_labels"] = rng.sample(range(spec["ports"]), rng.randint(0, spec["ports"]))
+    elif r < 0.5:
+        fam = spec["families"][rng.choice(TYPES)]
+        if len(fam) >= 2:
+            fam[1]["for"] = fam[1]["for"] + [fam[0]["on"]]
+    return spec
+
+
 def gen_topo_spec(rng, fixed=False):
     nports = 4 if fixed else rng.randint(3, 6)
     ports = ['SWP%d' % i for i in range(nports)]
@@ -1390,39 +1428,104 @@ def gen_topo_spec(rng, fixed=False):
     return {"kind": "topology", "ports": nports, "delegation": did, "families": fams, "cap_w": cap_w}
 
 
+def build_topo(case):
+    """a small substrate: a worker with capacities and a SmartNIC (capacities, labels, two labelled ports) and a stitch switch with
+    `ports` trunk ports (the nodes the pools of the case live on)"""
+    import fim.user as f
+    dm, cl, K = mods()
+    topo = f.SubstrateTopology()
+    w = topo.add_node(name='w1', model='R7525', site='S', node_id='N1', ntype=f.NodeType.Server, capacities=mk_det(case["cap_w"], cl))
+    w.add_component(name='w1-nic1', model='ConnectX-6', node_id='N1-nic1', network_service_node_id='N1-nic1-sf',
+                    interface_node_ids=['I1', 'I2'],
+                    interface_labels=[f.Labels(mac='04:3F:72:B7:19:5C', vlan_range='1-4096'),
+                                      f.Labels(mac='04:3F:72:B7:19:5D', vlan_range='1-4096')],
+                    ctype=f.ComponentType.SmartNIC, capacities=f.Capacities(unit=1),
+                    labels=f.Labels(bdf=['0000:41:00.0', '0000:41:00.1']))
+    stitch = case.get("stitch", True)
+    sw = topo.add_node(name='sw', node_id='SW', site='S', ntype=f.NodeType.Switch, stitch_node=stitch)
+    ns = sw.add_network_service(name='sw-ns', node_id='SW-ns', nstype=f.ServiceType.MPLS, stitch_node=stitch)
+    for i in range(case["ports"]):
+        kw = {}
+        if case.get("port_labels") and i in case["port_labels"]:
+            kw["labels"] = f.Labels(local_name="p%d" % i)
+        ns.add_interface(name='p%d' % i, itype=f.InterfaceType.TrunkPort, node_id='SWP%d' % i, stitch_node=stitch, **kw)
+    return topo
+
+
+def topo_elements(topo):
+    """node id -> model element, by an own traversal of the topology"""
+    elements = {}
+    for n in topo.nodes.values():
+        elements[n.node_id] = n
+        for c in n.components.values():
+            elements[c.node_id] = c
+            for i in c.interface_list:
+                elements[i.node_id] = i
+        for s_ in n.network_services.values():
+            elements[s_.node_id] = s_
+            for i in s_.interface_list:
+                elements[i.node_id] = i
+    return elements
+
+
+def topo_request(spec):
+    """the request for the model: the spec plus the elements as the topology really has them (node id, stitch flag, own capacities / labels)"""
+    dm, cl, K = mods()
+    topo = build_topo(spec)
+    try:
+        elems = []
+        for nid, el in topo_elements(topo).items():
+            row = [nid, bool(el.get_property("stitch_node"))]
+            for pname, kind in (("capacities", "CAPACITY"), ("labels", "LABEL")):
+                x = el.get_property(pname=pname)
+                row.append(None if x is None else [kind_of(x, cl), to_wire(x.to_dict() or {})])
+            elems.append(row)
+    finally:
+        try:
+            topo.graph_model.delete_graph()
+        except Exception:
+            pass
+    return {"spec": spec, "elems": elems}
+
+
+def topo_eval(x):
+    """single_delegation on the real topology; then every node's two delegation properties as stored in the graph"""
+    dm, cl, K = mods()
+    spec = x["spec"]
+    topo = build_topo(spec)
+    try:
+        pools = {cty: build_family(cty, spec["families"][cty], dm, cl) for cty in TYPES}
+        topo.single_delegation(delegation_id=spec["delegation"], label_pools=pools["LABEL"], capacity_pools=pools["CAPACITY"])
+        arm = topo.as_arm()
+        out = []
+        for cty, prop in (("CAPACITY", K.PROP_CAPACITY_DELEGATIONS), ("LABEL", K.PROP_LABEL_DELEGATIONS)):
+            rows = []
+            for nid in sorted(topo_elements(topo)):
+                _, props = arm.get_node_properties(node_id=nid)
+                v = props.get(prop, None)
+                if v is not None and v != K.NEO4j_NONE:
+                    rows.append([nid, to_wire(json.loads(v))])
+            out.append([cty, sorted(rows)])
+        return out
+    finally:
+        try:
+            topo.graph_model.delete_graph()
+        except Exception:
+            pass
+
+
 def check_topology(case, res):
     """through Topology.single_delegation / annotate_delegations_and_pools on a small substrate topology"""
     import fim.user as f
     dm, cl, K = mods()
     nports, did, fams = case["ports"], case["delegation"], case["families"]
-    topo = f.SubstrateTopology()
-    w = topo.add_node(name='w1', model='R7525', site='S', node_id='N1', ntype=f.NodeType.Server, capacities=mk_det(case["cap_w"], cl))
-    nic = w.add_component(name='w1-nic1', model='ConnectX-6', node_id='N1-nic1', network_service_node_id='N1-nic1-sf',
-                          interface_node_ids=['I1', 'I2'],
-                          interface_labels=[f.Labels(mac='04:3F:72:B7:19:5C', vlan_range='1-4096'),
-                                            f.Labels(mac='04:3F:72:B7:19:5D', vlan_range='1-4096')],
-                          ctype=f.ComponentType.SmartNIC, capacities=f.Capacities(unit=1),
-                          labels=f.Labels(bdf=['0000:41:00.0', '0000:41:00.1']))
-    sw = topo.add_node(name='sw', node_id='SW', site='S', ntype=f.NodeType.Switch, stitch_node=True)
-    ns = sw.add_network_service(name='sw-ns', node_id='SW-ns', nstype=f.ServiceType.MPLS, stitch_node=True)
-    for i in range(nports):
-        ns.add_interface(name='p%d' % i, itype=f.InterfaceType.TrunkPort, node_id='SWP%d' % i, stitch_node=True)
+    topo = build_topo(case)
     try:
         pools = {cty: build_family(cty, fams[cty], dm, cl) for cty in TYPES}
         want = {cty: pools_canon(pools[cty], cl) for cty in TYPES}
         topo.single_delegation(delegation_id=did, label_pools=pools["LABEL"], capacity_pools=pools["CAPACITY"])
         arm = topo.as_arm()
-        elements = {}
-        for n in topo.nodes.values():
-            elements[n.node_id] = n
-            for c in n.components.values():
-                elements[c.node_id] = c
-                for i in c.interface_list:
-                    elements[i.node_id] = i
-            for s in n.network_services.values():
-                elements[s.node_id] = s
-                for i in s.interface_list:
-                    elements[i.node_id] = i
+        elements = topo_elements(topo)
         for cty in TYPES:
             T = dm.DelegationType[cty]
             q = dm.Pools(atype=T)
